@@ -262,6 +262,15 @@ def search(ctx, boost=1, focus=()):
                           "dtype": xdt.name, "sparse": False})
             ctx.count("full_range_" + xdt.name)
             continue
+        if k % 6 == 3:
+            # values of both signs that cancel in many windows (a +-1 checkerboard, small signed integers, signed half-integers):
+            # a window whose values sum to zero is not an empty window
+            yy_, xx_ = np.mgrid[0:fy, 0:fx]
+            fr = [((yy_ + xx_) % 2) * 2 - 1, rng.integers(-2, 3, (fy, fx)), rng.integers(-3, 4, (fy, fx)) * 0.5][(k // 6) % 3]
+            cases.append({"frame": np.asarray(fr), "c": c, "peaks": peaks,
+                          "dtype": ["int64", "float64", "float32", "int32", "int8"][(k // 18) % 5], "sparse": (k // 6) % 2 == 1})
+            ctx.count("cancelling_values")
+            continue
         cases.append({"frame": rng.integers(1, 60000, (fy, fx)), "c": c, "peaks": peaks,
                       "dtype": dts[k % len(dts)], "sparse": k % 5 == 0, "extra_slots": int(rng.integers(1, 4)) if k % 4 == 1 else 0})
     for params in cases:
